@@ -50,4 +50,11 @@ theorem C18_escape_tables_inverse :
       | [92, x] => Gen.unescapeTable.any (fun q => q.1 == x && q.2 == p.1)
       | _ => false) = true := by decide +kernel
 
+/-- **C18_int_kinds (partial: D97).**  The model's `.int` is an integer whatever Go kind carries it; `writeValue` has
+an arm of its own (decimal text through `strconv.FormatInt`) for exactly these kinds, read from its type switch on
+this run.  For them the round-trip theorems above apply; an integer of another kind (int8, uint, uint8 … uint64)
+takes the default arm and is written as a quoted string — the test-pinned finding D97, which the correspondence
+observes on every run with all ten kinds. -/
+theorem C18_int_kinds_partial : Gen.writerIntKinds = ["int", "int16", "int32", "int64"] := by decide
+
 end Ggql.ValueText
